@@ -821,6 +821,11 @@ _dbus_loop_iterate (DBusLoop     *loop,
                 {
                   dbus_bool_t oom;
 
+                  /* the handler may disconnect its connection, which
+                   * removes and frees the watch: keep it alive until we
+                   * are done with it */
+                  _dbus_watch_ref (watch);
+
                   oom = !dbus_watch_handle (watch, condition);
 
                   if (oom)
@@ -829,6 +834,8 @@ _dbus_loop_iterate (DBusLoop     *loop,
                       loop->oom_watch_pending = TRUE;
                       any_oom = TRUE;
                     }
+
+                  _dbus_watch_unref (watch);
 
 #if MAINLOOP_SPEW
                   _dbus_verbose ("  Invoked watch, oom = %d\n", oom);
